@@ -17,7 +17,7 @@ ObsOf(x) ==
   [cfg    |-> x.cfg,
    probes |-> [i \in 1..Len(x.probes) |->
                  [src |-> x.probes[i].src, dst |-> x.probes[i].dst, d |-> x.probes[i].d,
-                  ackdl |-> x.probes[i].ackdl, ackdt |-> x.probes[i].ackdt, anss |-> x.probes[i].anss]],
+                  ack |-> x.probes[i].ack, ackdt |-> x.probes[i].ackdt, anss |-> x.probes[i].anss]],
    repFile |-> Dsts(x.file), repDb |-> Dsts(x.db),
    uris   |-> Uris(x.file) \cup Uris(x.db),
    done   |-> x.done]
